@@ -13,14 +13,19 @@ Rows == {<<"list", it>> : it \in SeqsOf(Leaf, MaxLen)}
 Trees == Leaf \cup Rows \cup {<<"list", it>> : it \in SeqsOf(Leaf \cup Rows, MaxLen)}
 
 CfgSpace == [mgr : {"perception", "sensing"}, task : TaskSet, x : BOOLEAN, y : BOOLEAN, dmax : BOOLEAN, dmin : BOOLEAN,
-             minPts : BOOLEAN, unknownKey : BOOLEAN, nFrameIds : 1..2, thr : {"ok", "bad"}, n : {2}]
+             minPts : BOOLEAN, unknownKey : BOOLEAN, nFrameIds : 1..2, thr : {"ok", "bad"}, n : {2},
+             aux : {"min_point_numbers", "confidence_threshold", "max_matchable_radii", "max_x_position"},
+             auxShape : {"list", "scalar", "zero", "singleton", "empty", "short"}]
+\* the aux dimension only varies on otherwise plain configurations (keeps the product small)
+AuxOk(c) == (c.auxShape = "list" /\ c.aux = "min_point_numbers")
+            \/ (c.task \in {"detection", "tracking"} /\ c.mgr = "perception" /\ c.x /\ c.y /\ ~c.dmax /\ ~c.dmin /\ c.minPts /\ ~c.unknownKey /\ c.nFrameIds = 1 /\ c.thr = "ok")
 FrameSpace == [kind : {"xy", "ring", "both", "none"}, lenDelta : -1..1, is2d : BOOLEAN]
 
 NoTree == <<"num", 0>>
 Init ==
   /\ phase = "input" /\ out = <<>>
   /\ \/ kind = "thr" /\ tree \in Trees /\ n \in Ns /\ nest \in BOOLEAN /\ cfgc = <<>>
-     \/ kind = "cfg" /\ cfgc \in CfgSpace /\ tree = NoTree /\ n = 0 /\ nest = FALSE
+     \/ kind = "cfg" /\ cfgc \in {c \in CfgSpace : AuxOk(c)} /\ tree = NoTree /\ n = 0 /\ nest = FALSE
      \/ kind = "frame" /\ cfgc \in FrameSpace /\ tree = NoTree /\ n = 0 /\ nest = FALSE
 Eval == /\ phase = "input" /\ phase' = "done"
         /\ out' = IF kind = "thr" THEN Normalize(tree, n, nest)
